@@ -339,6 +339,13 @@ pub fn scenario_b(idx: usize, seed: u64) -> ScenarioResult {
             let p = &peers[k];
             if rng.gen_bool(0.5) {
                 // persistence: the peer drops the connection; N must redial within I+1s and reconnect
+                // the peer registers N one acknowledgement later than N registers the peer: make
+                // sure the disconnect below really closes something
+                let n_id = n.peer_id;
+                if !world::wait_until(Duration::from_secs(2), Duration::from_millis(1), || p.net.peers().contains(&n_id)).await {
+                    trace.push(format!("round {round}: peer #{k} does not list N, skipped"));
+                    continue;
+                }
                 let ev_mark = w.log.lock().events.get(&n.idx).map(|v| v.len()).unwrap_or(0);
                 let _ = p.net.disconnect(n.peer_id);
                 // wait for N to notice
